@@ -24,6 +24,8 @@ PART 2 — adjacency state machine (`step`)
 * `handleLinkEvent` — `spanning_tree._handle_LinkEvent` (spanning_tree.py:156-166).  `Variant.skip = false` is the repaired handler
     (always `_update_tree()` — fix C19-1); `true` keeps the "both ends already blocked → return" shortcut of the pinned commit.
 Every op that raises LinkEvents carries `order`, the iteration order of the `switches` set inside `_calc_spanning_tree` (oracle argument).
+PART 3 — the recurring expiry timer (`TState`, `tstep`, `runT`): `Timer(_timeout_check_period, _expire_links, recurring=True)` (:290) under
+    the contract of `recoco.Timer.run` (recoco.py:1077-1085).
 Time is in milliseconds.  Core only; structural recursion only. -/
 namespace Pox.Discovery
 open Pox Pox.STree
@@ -356,6 +358,78 @@ def runOps (v : Variant) : DState → List Op → DState × List Out
   | s, op :: ops =>
     let r := step v s op
     let rs := runOps v r.1 ops
+    (rs.1, r.2 :: rs.2)
+
+/-! ## Part 3: the recurring expiry timer
+
+`Discovery.__init__` (:290) ends with `Timer(self._timeout_check_period, self._expire_links, recurring=True)`; the component never
+calls `_expire_links` itself.  `recoco.Timer.run` (recoco.py:1077-1085), the contract the two sites share:
+
+    while not self._cancelled:
+      yield Sleep(timeToWake=self._next, absoluteTime=True)
+      self._next = time.time() + self._interval
+      rv = self._callback(*self._args, **self._kw)
+      if self._self_stoppable and (rv is False): break        -- `selfStoppable` defaults to True
+      if not self._recurring: break
+
+so whether there is a next sweep depends on what the callback RETURNS.  `TState.next` is the time the timer fires next (`none`: the
+timer has stopped for good); a timed history consists of things that happen (`up`, `down`, `probe`: no time passes) and of time
+passing (`wait`), during which every sweep that falls due is run at its own time.  Under the ideal clock a timer wakes exactly when
+due, so `_next` advances by exactly one period. -/
+
+def CHECK_PERIOD : Nat := 5000          -- `_timeout_check_period = 5`
+
+/-- what `_expire_links` returns: it has no `return` statement (`None`) -/
+def expireReturns : Option Bool := none
+
+/-- `recoco.Timer.run` after a callback of a recurring timer returned `rv`: is there a next round? -/
+def timerGoesOn (selfStoppable : Bool) (rv : Option Bool) : Bool := !(selfStoppable && rv == some false)
+
+structure TState where
+  d : DState
+  next : Option Nat
+  deriving Repr
+
+/-- right after `Discovery.__init__` -/
+def tinit : TState := ⟨init, some (init.now + CHECK_PERIOD)⟩
+
+inductive TOp where
+  | up (dpid : Nat) (ports : List Nat)
+  | down (dpid : Nat) (order : List Nat)
+  | probe (l : Link) (order : List Nat)
+  | wait (dt : Nat) (order : List Nat)      -- `order`: oracle argument of the sweeps that fire on the way
+  deriving Repr
+
+def Out.append (a b : Out) : Out := ⟨a.events ++ b.events, a.mods ++ b.mods, a.errs + b.errs⟩
+
+/-- the expiry timer's rounds that are due up to and including `target`, each at its own time (`fuel` bounds their number) -/
+def fireDue (v : Variant) (order : List Nat) (target : Nat) : Nat → TState → Out → TState × Out
+  | 0, ts, out => (ts, out)
+  | k+1, ts, out =>
+    match ts.next with
+    | none => (ts, out)
+    | some n =>
+      if n ≤ target then
+        let r := step v { ts.d with now := n } (.sweep order)
+        fireDue v order target k
+          ⟨r.1, if timerGoesOn true expireReturns then some (n + CHECK_PERIOD) else none⟩ (out.append r.2)
+      else (ts, out)
+
+def tstep (v : Variant) (ts : TState) : TOp → TState × Out
+  | .up d ps => let r := step v ts.d (.up d ps); (⟨r.1, ts.next⟩, r.2)
+  | .down d o => let r := step v ts.d (.down d o); (⟨r.1, ts.next⟩, r.2)
+  | .probe l o => let r := step v ts.d (.probe l o); (⟨r.1, ts.next⟩, r.2)
+  | .wait dt order =>
+    let target := ts.d.now + dt
+    let r := fireDue v order target (dt / CHECK_PERIOD + 1) ts {}
+    (⟨{ r.1.d with now := target }, r.1.next⟩, r.2)
+
+/-- run a timed history, collecting the per-op outputs -/
+def runT (v : Variant) : TState → List TOp → TState × List Out
+  | ts, [] => (ts, [])
+  | ts, op :: ops =>
+    let r := tstep v ts op
+    let rs := runT v r.1 ops
     (rs.1, r.2 :: rs.2)
 
 end Pox.Discovery
